@@ -177,4 +177,12 @@ theorem genOff_eval (w : Rtamt.Env α) (n : Nat) (φ : F α)
           simp [Generated.offlineDiscrete.handles, TB2.kind, hwf.1.1]
         · simp at hnp
 
+/-- Nothing in the translated visit methods is outside the translated subset, except the attribute access of
+    object-typed variables in `visitVariable` (`operator.attrgetter(node.field)(v)`, only reached for variables of a
+    user-defined type, which the correspondence streams with `Msg`-typed variables exercise). -/
+theorem genOff_supported :
+    (Gen.Off.methods.filter (fun p => !(p.2.body.supported && (match p.2.ret with | some e => e.supported | none => true)))).map (·.1)
+      = ["visitVariable"] := by
+  decide
+
 end Rtamt.Py
